@@ -63,13 +63,15 @@ static void one_vec_case(const char* entry, variant_t variant, uint64_t N, unsig
                          uint64_t a_size /* selected limbs */, unsigned res_slc, unsigned a_slc, int fam, int inplace,
                          uint64_t rb, uint64_t re, uint64_t rs, int native, unsigned rep) {
   char key[128];
-  snprintf(key, sizeof key, "%s|%s%s%s", entry, a_size == 0 ? "a_size=0" : (res_size == 0 ? "res_size=0" : (res_size < a_size ? "res<a" : (res_size == a_size ? "res=a" : "res>a"))),
-           inplace ? ",inplace" : "", native ? "" : ",generic");
+  const int ntt = (native >> 4) & 1;  // bit 4 of `native`: through an NTT120 module (the only module type that exists for N = 1)
+  native &= 15;
+  snprintf(key, sizeof key, "%s|%s%s%s%s", entry, a_size == 0 ? "a_size=0" : (res_size == 0 ? "res_size=0" : (res_size < a_size ? "res<a" : (res_size == a_size ? "res=a" : "res>a"))),
+           inplace ? ",inplace" : "", native ? "" : ",generic", ntt ? ",ntt120 module" : "");
   if (!case_begin(key, "N=%" PRIu64 " k=%u res_size=%" PRIu64 " a_size=%" PRIu64 " res_sl=%u a_sl=%u fam=%s inplace=%d range=%" PRIu64 ":%" PRIu64 ":%" PRIu64 " disp=%s rep=%u",
                   N, k, res_size, a_size, res_slc, a_slc, fam_name[fam], inplace, rb, re, rs, native ? "native" : "generic", rep))
     return;
   rng_t* r = crng();
-  const MODULE* mod = get_module(N, FFT64, native);
+  const MODULE* mod = get_module(N, ntt ? NTT120 : FFT64, native);
   // source: for the small variant a strided vector, for big variants a VEC_ZNX_BIG (stride N)
   uint64_t a_total = (variant == V_RANGE) ? re : a_size;  // limbs present in the object
   uint64_t a_sl = (variant == V_SMALL) ? stride_choice(N, a_slc) : N;
@@ -397,6 +399,19 @@ void run_C05(void) {
     one_vec_case("vec_znx_normalize_base2k", V_SMALL, 1024, k, 3, 4, 1, 2, FAM_MIXED, 0, 0, 0, 0, 1, 0);
     one_vec_case("vec_znx_normalize_base2k", V_SMALL, 65536, k, 2, 3, 0, 1, FAM_MIXED, 0, 0, 0, 0, 1, 0);
   }
+  // through NTT120 modules, N = 1 included (no FFT64 module exists there): every k, the size box, contiguous and strided
+  {
+    static const uint64_t NN[] = {1, 2, 4, 16};
+    for (size_t ni = 0; ni < ARRAY_LEN(NN); ni++)
+      for (unsigned k = 1; k <= 62; k += (th || NN[ni] == 1 ? 1 : 5))
+        for (uint64_t rs = 0; rs <= 4; rs++)
+          for (uint64_t as = 0; as <= 4; as++) {
+            ctr++;
+            if (NN[ni] != 1 && !th && (ctr % 3)) continue;
+            one_vec_case("vec_znx_normalize_base2k", V_SMALL, NN[ni], k, rs, as, ctr % 4, (ctr / 4) % 4, (int)(ctr % N_FAM), 0, 0, 0, 0, 1 | 16, 300);
+            if (rs <= as && (ctr % 4) == 0) one_vec_case("vec_znx_normalize_base2k", V_SMALL, NN[ni], k, rs, as, 0, ctr % 4, (int)(ctr % N_FAM), 1, 0, 0, 0, 1 | 16, 300);
+          }
+  }
   // big variant
   for (unsigned k = 1; k <= 62; k += (th ? 1 : 2))
     for (uint64_t rs = 0; rs <= 5; rs++)
@@ -421,4 +436,15 @@ void run_C05(void) {
         // in place on the selected limbs (same pointer, same stride) when the output fits in the selection
         if (nsel >= 1) one_vec_case("vec_znx_big_range_normalize_base2k", V_RANGE, 8, 1 + (unsigned)(ctr % 62), nsel, nsel, 0, 0, FAM_MIXED, 1, b, e, s, 1, 0);
       }
+  // the entry points of this property called a second time on the SAME buffers holding other data (new values, two limbs exchanged,
+  // one word moved between limbs): must equal a fresh call on that data (results or operands remembered by address)
+  {
+    static const char* const RNAMES[] = {"vec_znx_normalize_base2k", "vec_znx_normalize_base2k(res==a)", "vec_znx_big_normalize_base2k", "vec_znx_big_range_normalize_base2k", "znx_normalize"};
+    static const uint64_t RN[] = {2, 16, 64, 1024};
+    for (size_t i = 0; i < ARRAY_LEN(RN); i++)
+      for (int cfg = DISP_NATIVE; cfg >= DISP_GENERIC; cfg--) {
+        if (cfg == DISP_GENERIC && (i & 1)) continue;
+        ops_recontent_case("C05 entry points", RNAMES, (int)ARRAY_LEN(RNAMES), RN[i], cfg, G.thorough ? 40 : 6, (unsigned)i, "same_buffers_other_data_calls");
+      }
+  }
 }
